@@ -26,6 +26,13 @@ func genC13(r *Rng, n int, tier string, emit func(Case)) {
 			c["modes"] = "both"
 			c["from"] = s
 			delete(c, "oracle")
+			if rr := r.Fork(); rr.Chance(1, 8) {
+				// unescaped output of a variable that is not in the data, after whatever the document holds: what the engine prints
+				// for it (a diagnostic, not specified) must at least not depend on the mode
+				doc := asList(c["doc"])
+				doc = append(doc, nTag("section", false, nil, nTag("p", false, nil, nText("x")), nBuf(eId("nickname"), false)), nBuf(eId("nickname"), false))
+				c["doc"] = doc
+			}
 			emit(c)
 		})
 	}
